@@ -38,19 +38,12 @@ def produce(c, binhash):
         # ---- model runs: C08 on the model + transition dump ----
         for prof, steps in t["profiles"]:
             cfg = "MC_Lend_%s%d.cfg" % (prof, steps)
-            mc_cfg(d, cfg, prof, steps, True, ["PropLtv", "PropLtvOpenBridged", "PropPoolHeld"])
+            mc_cfg(d, cfg, prof, steps, True, ["PropLtv", "PropLtvOpenBridged", "PropLtvDrawBridged", "PropPoolHeld"])
             tfile = os.path.join(d, "T_%s.txt" % prof)
             r = vlib.model_check(d, "MC_Lend", cfg, workers=1, tfile=tfile, timeout=2400)
             gen += r["generated"]
             dist += r["distinct"]
             jobs.append((prof, ["--trans", tfile, "--runs-small", "0", "--runs-big", "0"]))
-        # the named deviation (draw on a bridged position ignores the transit ratio) must show up as a model counterexample
-        mc_cfg(d, "MC_Lend_dev.cfg", "cross", 4, False, ["PropLtvDrawBridged"])
-        dev = vlib.run_tlc(d, "MC_Lend", "MC_Lend_dev.cfg", workers=4, timeout=900)
-        dev_cex = "Action property PropLtvDrawBridged is violated" in dev["out"]
-        if not dev_cex and not dev.get("ok"):
-            vlib.log(vlib.tlc_error_text(dev["out"]))
-            raise vlib.NoVerdict("model run for the named deviation failed")
         # ---- real code: walk every model transition, then seeded drives; TLC judges every recorded node ----
         jobs.append(("drive", ["--runs-small", str(t["runs_s"]), "--runs-big", str(t["runs_b"]), "--runs-v1", str(t["runs_v1"]), "--steps", str(t["steps"])]))
         logs, stats, samples = [], {}, []
@@ -83,7 +76,7 @@ def produce(c, binhash):
                     os.remove(os.path.join(d, f))
                 except OSError:
                     pass
-        return dict(logs=logs, stats=stats, samples=samples, walked=walked, tstates=tstates, allnodes=allnodes, gen=gen, dist=dist, dev_cex=dev_cex,
+        return dict(logs=logs, stats=stats, samples=samples, walked=walked, tstates=tstates, allnodes=allnodes, gen=gen, dist=dist,
                     profiles=["%s,MaxSteps=%d" % x for x in t["profiles"]])
 
     return vlib.cached("lend", [binhash, vlib.spec_hash("lend"), c.tier, c.seed, TIERS[c.tier]], producer)
@@ -106,8 +99,6 @@ def run(c, need=None):
         model_configs=res["profiles"], transitions_executed_on_impl=res["walked"], trace_states=res["tstates"],
         antecedents=st, exhaustive=True, unpredicted_actions=UNPREDICTED, shared_log_cached=was_cached,
         unpredicted_fields=["interest / reward amounts (environment, taken from the log)", "fractional interest carry", "cToken supply"],
-        model_counterexample_named_deviation=dict(property="PropLtvDrawBridged", found=res["dev_cex"],
-                                                   note="draw on a cross-pool position applies the collateral asset's ratio alone; reproduced on the real code by formula C08_LtvDrawBridged"),
         rule="every transition of the bounded profiles (same-pool, cross-pool, multi-pair, one asset in two pools; 2 users, amounts at the exact LTV boundary -1/0/+1, "
              "interest injection, price moves, foreign-owner attempts) is executed once on the real msg servers; plus seeded drives "
              "(3 users, 2 pools, 11 pairs, mixed decimals, time gaps up to a year, price moves aimed just below / above each position's liquidation threshold, sweep batch sizes 1..3, "
